@@ -1,6 +1,5 @@
-// FINDING (completeness): well-typed, but rejected with T-002 "Fun[i64, i64] is undefined" (New::check needs the
-// instance to exist; it only occurs in the destructor signature of Obj). Accepted once some def mentions
-// Fun[i64, i64] earlier (p39_codata_in_codata.sc).
+// REGRESSION (completeness; FORMERLY REJECTED with T-002 "Fun[i64, i64] is undefined", accepted since the
+// repair of New::check): the instance only occurs in the destructor signature of Obj.
 codata Fun[A, B] { apply(x: A): B }
 codata Obj { getf: Fun[i64, i64], self: Obj }
 def o(n: i64): Obj { new { getf => new { apply(x) => x + n }, self => o(n + 1) } }
